@@ -114,13 +114,18 @@ def run_check(mod, pid, tier, seed, t0):
     stats = core.run_jobs(mod.__name__, jobs)
     stats.add('seed_replays_run', n_seed)
 
-    for sig, (cnt, f) in sorted(stats.failures.items()):
+    unknown_budget = 12      # report at most this many distinct signatures (smallest cases first)
+    ordered = sorted(stats.failures.items(), key=lambda kv: (kv[1][1].size(), kv[0]))
+    for sig, (cnt, f) in ordered:
         kmatch = [k for k in known if core.sig_matches(k.signature, sig)]
         if kmatch:
             if kmatch[0].signature not in known_printed:
                 print(f'KNOWN-FINDING: property={pid} {kmatch[0].text}')
                 known_printed.append(kmatch[0].signature)
             continue
+        if unknown_budget <= 0:
+            continue
+        unknown_budget -= 1
         if hasattr(mod, 'shrink'):
             try:
                 f = mod.shrink(f) or f
